@@ -35,36 +35,38 @@ RULE = ("case kinds by index: hostile monoidal diagrams (width 0-6, depth "
         "rendered to TikZ, ~10 % to matplotlib; bubble-free Ty-typed diagrams "
         "are replayed through diagramize.  Non-trivial = >=2 boxes; distinct "
         "by class, offsets and box arities.")
-SIZES = {"quick": (16, 200), "thorough": (16, 5200)}
+SIZES = {"quick": (16, 260), "thorough": (16, 5400)}
 TIMEOUT = {"quick": 600, "thorough": 5400}
 COVER = {
     "discopy.drawing:diagram2nx": 0.95,
     "discopy.drawing:diagram2nx.make_space": 0.99,
     "discopy.drawing:diagram2nx.add_box": 0.99,
     "discopy.drawing:nx2diagram": 0.95,
-    "discopy.drawing:diagramize.decorator": 0.8,
-    "discopy.drawing:diagramize.decorator.apply": 0.75,
-    "discopy.drawing:draw": 0.9,
-    "discopy.drawing:draw.draw_wires": 0.9,
+    "discopy.drawing:diagramize": 0.95,
+    "discopy.drawing:diagramize.decorator": 0.85,
+    "discopy.drawing:diagramize.decorator.apply": 0.95,
+    "discopy.drawing:draw": 0.95,
+    "discopy.drawing:draw.draw_wires": 0.95,
     "discopy.drawing:draw.scale_and_pad": 0.95,
     "discopy.drawing:draw_box": 0.95,
-    "discopy.drawing:equation": 0.9,
+    "discopy.drawing:equation": 0.95,
     "discopy.drawing:TikzBackend.add_node": 0.95,
     "discopy.drawing:TikzBackend.draw_wire": 0.95,
-    "discopy.drawing:TikzBackend.draw_polygon": 0.6,
-    "discopy.drawing:TikzBackend.draw_text": 0.9,
-    "discopy.drawing:TikzBackend.draw_node": 0.9,
-    "discopy.drawing:TikzBackend.draw_spiders": 0.6,
-    "discopy.drawing:TikzBackend.output": 0.6,
-    "discopy.drawing:MatBackend.draw_wire": 0.7,
-    "discopy.drawing:MatBackend.draw_polygon": 0.9,
-    "discopy.drawing:MatBackend.draw_spiders": 0.9,
-    "discopy.drawing:MatBackend.output": 0.7,
+    "discopy.drawing:TikzBackend.draw_polygon": 0.9,
+    "discopy.drawing:TikzBackend.draw_text": 0.95,
+    "discopy.drawing:TikzBackend.draw_node": 0.95,
+    "discopy.drawing:TikzBackend.draw_spiders": 0.85,
+    "discopy.drawing:TikzBackend.output": 0.85,
+    "discopy.drawing:MatBackend.draw_wire": 0.95,
+    "discopy.drawing:MatBackend.draw_polygon": 0.95,
+    "discopy.drawing:MatBackend.draw_spiders": 0.95,
+    "discopy.drawing:MatBackend.output": 0.8,
     "discopy.quantum.drawing:draw_discard": 0.95,
     "discopy.quantum.drawing:draw_measure": 0.95,
     "discopy.quantum.drawing:draw_brakets": 0.95,
-    "discopy.quantum.drawing:draw_controlled_gate": 0.9,
-    "discopy.monoidal:Diagram.open_bubbles": 0.9,
+    "discopy.quantum.drawing:draw_controlled_gate": 0.95,
+    "discopy.monoidal:Diagram.open_bubbles": 0.95,
+    "discopy.monoidal:Diagram.open_bubbles.OpenBubbles.__call__": 0.95,
 }
 MIN_EVALS = {}
 ASSUMPTIONS = [
@@ -530,6 +532,31 @@ def replay_diagramize(ctx, rng, diagram, cls, witness):
                got=lambda: safe_repr(result, 600), **witness)
 
 
+def diagramize_refusals(ctx, rng):
+    """ Requests outside the statement (ill-typed bodies): only counted. """
+    m, drawing = _S["monoidal"], _S["drawing"]
+    x, y = m.Ty("x"), m.Ty("y")
+    f, g = m.Box("f", x @ y, x), m.Box("g", x, y)
+    bodies = [
+        ("not-a-node", x @ y, x, lambda a, b: f(a, "b")),
+        ("wrong-arity", x @ y, x, lambda a, b: f(a)),
+        ("wrong-input-type", x @ y, x, lambda a, b: f(b, a)),
+        ("wrong-output-type", x, x, lambda a: g(a)),
+        ("no-boxes-no-id", x, x, None)]
+    for label, dom, cod, body in bodies:
+        try:
+            if body is None:
+                drawing.diagramize(dom, cod, [])
+            else:
+                drawing.diagramize(dom, cod, [f, g])(body)
+            ctx.count("hostile_diagramize_returned:" + label)
+        except Exception as err:
+            ctx.refuse("diagramize-{}:{}".format(label, type(err).__name__))
+        finally:
+            for box in (f, g):
+                box.__dict__.pop("_apply", None)
+
+
 def describe(diagram, cls, extra=None):
     info = dict(
         cls=cls,
@@ -661,3 +688,5 @@ def run_case(rng, ctx):
         examine(rng, ctx, diagram, cls)
     else:
         sum_case(rng, ctx)
+        if ctx.index % 48 == 11:
+            diagramize_refusals(ctx, rng)
